@@ -3,6 +3,7 @@ import json
 
 import gens as G
 import h4seq_util as U
+import h9b_util as HB
 import pyimpl as P
 from oracle_util import *  # noqa
 from protocol import from_real, to_real
@@ -51,6 +52,10 @@ CLAUSES = [
 RULE = ("well-formed multi-channel note sets (<=8 notes, 3 channels, ticks<200, 30% very short notes, abutting notes) with "
         "non-note events x step lists from the defaults and {2,3,4,5,7,12,16,24}; 35% with the messages of each tick stored in random order (as "
         "add_absolute_message leaves them); a quarter also through Sequence.quantise from every wrapper state, half of those without a step list; "
+        "every second case also a HISTORY of 2-3 calls sharing one caller-owned step list that the caller edits in place in between (set / append / insert / "
+        "pop / sort / reverse / clear-and-refill), handed over as the same object, as an equal fresh list or not at all, through AbsoluteSequence.quantise, "
+        "Sequence.quantise and quantise_and_normalise, on a copy of the earlier data, on a piece sharing notes and ticks with it, on the same object again or on an "
+        "unrelated piece: every call judged for the list as it read at that call; "
         "non-trivial = at least two notes or a note shorter than the largest step")
 ASSUMPTIONS = ["model: SCoda.quantiseS (Model/QuantiseS.lean: sortAbs, then SCoda.quantise of Model/Quantise.lean), tied by translation (AbsTie2.quantise_eq) and by "
                "correspondence on the same inputs, 35 % of them with the messages of a tick stored in random order"]
@@ -128,17 +133,29 @@ def o_quantise(inp):
         seq.quantise(list(steps))
     except Exception as e:
         return [("raises", f"quantise raised {type(e).__name__}: {e}")]
-    out_real = seq._messages
+    return judge(steps, real, a, pre, orig_time, seq._messages, None if wrapper is None else wrapper.rel._messages)
+
+
+def judge(steps, real, a, pre, orig_time, out_real, rel_view=None, qan=False):
+    """the property's clauses for ONE call, from plain data: `steps` the step list the call was given (as it read at the time of the call), `real` / `a`
+    the message objects / plain messages before the call, `pre` their canonical timed form, `orig_time` tick of every object before the call,
+    `out_real` the objects of the absolute view after it.  `qan`: the call was quantise_and_normalise — the note-length pass that follows
+    quantise moves note ends to the allowed values and may remove notes (property C06) and normalise drops repeated signatures: only what
+    that leaves of C05 is judged (note-ons and non-note events on the grid and moved by at most the largest step, well-formed notes, every
+    note of the result an input note whose START moved by at most the largest step, no non-note event invented)"""
+    S = max(steps)
     out = [from_real(m) for m in out_real]
     fails = []
-    if wrapper is not None:
-        fails.extend(("views", d) for _, d in U.views_disagree(out, [from_real(m) for m in wrapper.rel._messages]))
+    if rel_view is not None:
+        fails.extend(("views", d) for _, d in U.views_disagree(out, [from_real(m) for m in rel_view]))
     for m in out:
         if not is_int(m[TIME]):
             fails.append(("grid", f"non-integer time {m[TIME]!r}"))
-        elif not any(m[TIME] % s == 0 for s in steps):
+        elif not any(m[TIME] % s == 0 for s in steps) and not (qan and m[TY] in (OFF, INTERNAL)):
             fails.append(("grid", f"time {m[TIME]} of {m} not divisible by any of {steps}"))
     for m in out_real:
+        if qan and from_real(m)[TY] in (OFF, INTERNAL):
+            continue
         if id(m) in orig_time and abs(m.time - orig_time[id(m)]) > S:
             fails.append(("displacement", f"message moved from {orig_time[id(m)]} to {m.time} (> {S})"))
     tout = [(m[TIME], m) for m in out if m[TY] != INTERNAL]
@@ -157,7 +174,7 @@ def o_quantise(inp):
         for key in sorted({(n[0], n[1]) for n in nout}):
             ins = sorted((n[2], n[3], n[4]) for n in nin if (n[0], n[1]) == key)
             outs = sorted((n[2], n[3], n[4]) for n in nout if (n[0], n[1]) == key)
-            fit = lambda o, i_: o[2] == i_[2] and abs(o[0] - i_[0]) <= S and abs(o[1] - i_[1]) <= S  # noqa
+            fit = lambda o, i_: o[2] == i_[2] and abs(o[0] - i_[0]) <= S and (qan or abs(o[1] - i_[1]) <= S)  # noqa
             # order-preserving injection of the result's notes into the input's notes of that key (notes of one key are disjoint in time)
             reach = [set() for _ in range(len(outs) + 1)]
             reach[0] = {0}
@@ -173,6 +190,15 @@ def o_quantise(inp):
                     break
     cnt_in = sorted((m[TY], m[CH]) + tuple(-1 if x is None else x for x in m[VEL:]) for t, m in tin if m[TY] not in (ON, OFF))
     cnt_out = sorted((m[TY], m[CH]) + tuple(-1 if x is None else x for x in m[VEL:]) for t, m in tout if m[TY] not in (ON, OFF))
+    if qan:
+        rest = list(cnt_in)
+        for e in cnt_out:
+            if e in rest:
+                rest.remove(e)
+            else:
+                fails.append(("others-kept", f"a non-note event was invented: {e}"))
+                break
+        return fails
     if cnt_in != cnt_out:
         fails.append(("others-kept", "a non-note event was lost or invented"))
     # survival of isolated notes
@@ -205,6 +231,145 @@ def o_quantise(inp):
     return fails
 
 
+_CANON = lambda m: (m[2], m[1], m[0], -1 if m[3] is None else m[3])  # noqa
+
+
+def o_history(inp):
+    """HISTORY OF CALLS WITH ONE CALLER-OWNED STEP LIST (seeded change C05 of round 9: candidates memoised at module level, the memo keyed by a
+    reference to the caller's list).  `list`: the content the caller's list starts with; `calls`: for each call, in order — `edits` the caller
+    makes to its list IN PLACE before the call (plain data, HB.apply_list_edits), `pass`: the call gets that very list object ("same-object"),
+    a fresh list with the content it has by then ("equal-copy") or no list ("none": the defaults); `via`: AbsoluteSequence.quantise ("abs"),
+    Sequence.quantise ("seq", from wrapper state `state`) or Sequence.quantise_and_normalise ("qan"); the sequence is built from `abs` (a new
+    object), or `on`: k = the object call k worked on is quantised again as it is now (an AbsoluteSequence optionally after `shift` was added
+    to every tick in place).  EVERY call is judged (judge) against the content the list has AT THE TIME OF THAT CALL, kept by the harness in
+    a list of its own; the library must not change the caller's list."""
+    from scoda.sequences.absolute_sequence import AbsoluteSequence
+    caller = list(inp["list"])          # the caller's list object
+    mine = list(inp["list"])            # what it must read, by the harness's own bookkeeping
+    objs = []
+    try:
+        for ci, call in enumerate(inp["calls"]):
+            HB.apply_list_edits(caller, call.get("edits") or [])
+            HB.apply_list_edits(mine, call.get("edits") or [])
+            how = call.get("pass") or "same-object"
+            steps = list(G.DEFAULT_STEPS) if how == "none" else list(mine)
+            if not steps or any(not is_int(x) or x <= 0 for x in steps):
+                return [("~skip:bad-steps", "")]
+            arg = None if how == "none" else caller if how == "same-object" else list(mine)
+            via = call.get("via") or "abs"
+            k = call.get("on")
+            if k is not None and 0 <= k < len(objs):
+                kind, obj = objs[k]
+                via = "abs" if kind == "abs" else ("seq" if via == "abs" else via)
+                if kind == "abs" and call.get("shift"):
+                    for m in obj._messages:
+                        m.time += call["shift"]
+                objs.append((kind, obj))            # objs[i] = the object call i worked on
+            elif "abs" in call:
+                a0 = [tuple(m) for m in call["abs"]]
+                if [m[2] for m in a0] != [m[2] for m in sorted(a0, key=_CANON)]:
+                    return [("~skip:not-time-sorted", "")]
+                if via == "abs":
+                    kind, obj = "abs", AbsoluteSequence(messages=[to_real(m) for m in a0])
+                else:
+                    kind, obj = "seq", P.seq_in_state(G.abs_to_rel(sorted(a0, key=_CANON)), call.get("state") or "rel")
+                    if U.content_abs([from_real(m) for m in obj.abs._messages]) != U.content_abs(sorted(a0, key=_CANON)):
+                        return [("input-not-held", f"call {ci}: a Sequence built in state '{call.get('state')}' does not show the generated events and duration")]
+                objs.append((kind, obj))
+            else:
+                return [("~skip:call-without-a-sequence", "")]
+            # the content the call works on, read off the object (private list of the absolute view; nothing is computed by the library here
+            # beyond the wrapper handing out its absolute view, which is what quantise itself starts with)
+            real = list(obj._messages if kind == "abs" else obj.abs._messages)
+            a = [from_real(m) for m in real]
+            canon = sorted(a, key=_CANON)
+            pre, _ = abs_timed(canon)
+            if wf_violations(pre) or any(on >= off for (_, _, on, off, _) in notes_of(pre)) or any(not is_int(m[2]) for m in a):
+                return [("~skip:not-well-formed-sorted", "")]
+            orig_time = {id(m): m.time for m in real}
+            try:
+                if via == "abs":
+                    obj.quantise(arg)
+                elif via == "seq":
+                    obj.quantise(arg)
+                else:
+                    obj.quantise_and_normalise(arg)
+            except Exception as e:
+                return [("raises", f"call {ci} ({via}, step list {steps}): {type(e).__name__}: {e}")]
+            if caller != mine or (how == "equal-copy" and arg != mine):
+                return [("argument", f"call {ci} ({via}): the list handed in read {mine} and reads {caller if caller != mine else arg} after the call")]
+            out_real = obj._messages if kind == "abs" else obj.abs._messages
+            fails = judge(steps, real, a, pre, orig_time, out_real, None if kind == "abs" else obj.rel._messages, qan=(via == "qan"))
+            if fails:
+                return [(c, f"call {ci} of the history ({via}, step list {steps} at that time, passed as {how}): {d}") for c, d in fails]
+        return []
+    finally:
+        # the last call of every history hands over a list nobody edits afterwards: whatever a later case of this process is given, no list of
+        # THIS history is still referenced as "the grid asked for last" (keeps every reported input self-contained)
+        try:
+            AbsoluteSequence(messages=[to_real(G.pm(CC, 0, 0, vel=0, ctl=7))]).quantise([1])
+        except Exception:
+            pass
+
+
+def gen_calls(rng):
+    """a history for o_history: 2-3 calls, the caller's list edited in place between them, later sequences sharing ticks with earlier ones.
+    Returns (input, labels)"""
+    labels = []
+    first = list(gen_steps(rng))
+    a1, notes1 = G.gen_wf_abs(rng, channels=(0, 1, 2))
+    vias = ["abs", "abs", "seq", "qan"]
+    calls = [{"abs": a1, "via": rng.choice(vias), "state": rng.choice(P.SEQ_STATES), "edits": [], "pass": "same-object" if rng.random() < 0.85 else "equal-copy"}]
+    cur = list(first)
+    seen = {m[2] for m in a1}
+    prev_notes, prev_a = notes1, a1
+    for ci in range(1, rng.choice([2, 2, 2, 3])):
+        edits = HB.gen_list_edits(rng, cur)
+        before = set(cur)
+        HB.apply_list_edits(cur, edits)
+        labels.extend("edit:" + e[0] for e in edits)
+        if not edits:
+            labels.append("edit:none")
+        labels.append("grid-changed" if set(cur) != before else "grid-unchanged")
+        call = {"edits": edits, "via": rng.choice(vias), "state": rng.choice(P.SEQ_STATES),
+                "pass": rng.choice(["same-object", "same-object", "same-object", "equal-copy", "equal-copy", "none"])}
+        r = rng.random()
+        if r < 0.35:
+            call["abs"] = [tuple(m) for m in prev_a]                  # a fresh object with the same data as an earlier call's input
+            labels.append("sequence:copy-of-earlier-data")
+        elif r < 0.75:
+            # another piece that shares notes / ticks with the earlier one: some of its notes (some on another channel or pitch), new notes around them
+            keep = [n for n in prev_notes if rng.random() < 0.6]
+            keep = [(rng.choice([0, 1, 2]), n[1], n[2], n[3], n[4]) if rng.random() < 0.3 else n for n in keep]
+            new = G.gen_notes(rng, n_notes=rng.randint(0, 4), channels=(0, 1, 2))
+            ns = []
+            for n in keep + new:
+                if not any(x[0] == n[0] and x[1] == n[1] and not (n[2] + n[3] <= x[2] or x[2] + x[3] <= n[2]) for x in ns):
+                    ns.append(n)
+            extras = [m for m in prev_a if m[0] not in (ON, OFF, INTERNAL) and rng.random() < 0.6] + G.gen_extras(rng, n=rng.choice([0, 1]), channels=(0, 1))
+            call["abs"] = G.notes_to_abs(ns, extras, None if rng.random() < 0.5 else max([n[2] + n[3] for n in ns] + [m[2] for m in extras] + [0]) + rng.choice([0, 7]))
+            prev_notes = ns
+            labels.append("sequence:shares-notes-with-earlier")
+        elif r < 0.9:
+            call["on"] = rng.randrange(len(calls))
+            if rng.random() < 0.5:
+                call["shift"] = rng.choice([1, 2, 5])
+            labels.append("sequence:same-object-again")
+        else:
+            call["abs"], prev_notes = G.gen_wf_abs(rng, channels=(0, 1, 2))
+            labels.append("sequence:unrelated")
+        if "abs" in call:
+            if rng.random() < 0.3:
+                call["abs"] = G.shuffle_ties(rng, call["abs"])
+            labels.append("shares-ticks-with-earlier-calls" if any(m[2] in seen for m in call["abs"]) else "no-shared-tick")
+            seen |= {m[2] for m in call["abs"]}
+            prev_a = sorted(call["abs"], key=_CANON)
+        labels.append("pass:" + call["pass"])
+        labels.append("via:" + call["via"])
+        calls.append(call)
+    return {"list": first, "calls": calls}, labels
+
+
 OBS = " ## observed="
 # notes 60 [0,50) and [50,100) entered as on@0, on@50, off@50, off@100 (add_absolute_message keeps that order); quantise([4])
 D41_EXAMPLE = {"abs": [G.pm(ON, 0, 0, note=60, vel=64), G.pm(ON, 0, 50, note=60, vel=70), G.pm(OFF, 0, 50, note=60), G.pm(OFF, 0, 100, note=60)], "steps": [4]}
@@ -225,6 +390,7 @@ def on_before_off_ticks(a):
 
 def setup(ctx):
     ctx.oracle("quantise", o_quantise)
+    ctx.oracle("history", o_history)
 
     def kf_d41(f):
         # (finding D41, repaired by fix_D41.diff; the predicate stays for source trees without the repair)
@@ -280,6 +446,12 @@ def generate(ctx):
             # through the Sequence wrapper from any of its states; every other time without a step list (the defaults)
             ctx.count("wrapper-states")
             ctx.check("quantise", {"abs": a, "steps": None if i % 8 == 1 else steps, "state": rng.choice(P.SEQ_STATES)})
+        if i % 2 == 0:
+            # two or three calls sharing one caller-owned step list that the caller edits in place in between (seeded change C05, round 9)
+            hist, labels = gen_calls(rng)
+            for lab in labels:
+                ctx.count("history:" + lab)
+            ctx.check("history", hist)
         ctx.corr("quantise", P.op_quantise(steps, a))
         ctx.sample({"abs": a, "steps": steps})
     if ctx.thorough:
